@@ -764,6 +764,71 @@ func mutateWire(md protoreflect.MessageDescriptor, b []byte, r *rand.Rand) ([]by
 	}
 }
 
+// decoderEdges: for every field of the type, hand-made inputs that no encoder writes but every
+// decoder must accept: explicit defaults, values wider than the field (truncation), any non-zero
+// bool, several occurrences of a scalar / string (last wins) and of a sub-message (merged), map
+// entries with missing, reordered or repeated key / value.
+func decoderEdges(md protoreflect.MessageDescriptor, r *rand.Rand) (out [][]byte, kinds []string) {
+	add := func(kind string, b []byte) { out = append(out, b); kinds = append(kinds, kind) }
+	tagv := func(n protowire.Number, v uint64) []byte {
+		return protowire.AppendVarint(protowire.AppendTag(nil, n, protowire.VarintType), v)
+	}
+	tagb := func(n protowire.Number, b []byte) []byte {
+		return protowire.AppendBytes(protowire.AppendTag(nil, n, protowire.BytesType), b)
+	}
+	for _, f := range sortedFields(md) {
+		n := f.Number()
+		switch {
+		case f.IsMap():
+			k1 := tagb(1, []byte("k"))
+			v1 := tagb(2, []byte("v1"))
+			v2 := tagb(2, []byte("v2"))
+			add("map-key-only", tagb(n, k1))
+			add("map-value-only", tagb(n, v1))
+			add("map-empty-entry", tagb(n, nil))
+			add("map-value-before-key", tagb(n, append(append([]byte{}, v1...), k1...)))
+			add("map-repeated-value-in-entry", tagb(n, append(append(append([]byte{}, k1...), v1...), v2...)))
+			add("map-duplicate-key", append(tagb(n, append(append([]byte{}, k1...), v1...)), tagb(n, append(append([]byte{}, k1...), v2...))...))
+			add("map-unknown-field-in-entry", tagb(n, append(append(append([]byte{}, k1...), tagv(3, 7)...), v1...)))
+		case f.IsList() && f.Kind() == protoreflect.MessageKind:
+			add("repeated-empty-elements", append(tagb(n, nil), tagb(n, nil)...))
+		case f.IsList():
+			add("repeated-interleaved", append(append(tagb(n, []byte("a")), tagv(1999, 1)...), tagb(n, nil)...))
+		case f.Kind() == protoreflect.MessageKind:
+			sub := sortedFields(f.Message())
+			add("submessage-twice-empty", append(tagb(n, nil), tagb(n, nil)...))
+			if len(sub) > 0 {
+				sf := sub[r.Intn(len(sub))]
+				var p []byte
+				switch {
+				case sf.IsMap() || sf.IsList() || sf.Kind() == protoreflect.MessageKind:
+					p = tagb(sf.Number(), nil)
+				case sf.Kind() == protoreflect.StringKind:
+					p = tagb(sf.Number(), []byte("x"))
+				default:
+					p = tagv(sf.Number(), 5)
+				}
+				if !sf.IsMap() {
+					add("submessage-merged-with-empty", append(tagb(n, p), tagb(n, nil)...))
+					add("submessage-empty-then-set", append(tagb(n, nil), tagb(n, p)...))
+				}
+			}
+		case f.Kind() == protoreflect.StringKind:
+			add("string-explicit-empty", tagb(n, nil))
+			add("string-last-wins", append(tagb(n, []byte("first")), tagb(n, []byte("second"))...))
+			add("string-reset-to-empty", append(tagb(n, []byte("first")), tagb(n, nil)...))
+		default:
+			for _, v := range []uint64{0, 2, 77, 1 << 31, 1<<32 | 1, 1 << 63, math.MaxUint64} {
+				add("scalar-explicit", tagv(n, v))
+			}
+			add("scalar-last-wins", append(tagv(n, 9), tagv(n, 3)...))
+			add("scalar-reset-to-zero", append(tagv(n, 9), tagv(n, 0)...))
+			add("scalar-padded-varint", append(protowire.AppendTag(nil, n, protowire.VarintType), 0x81, 0x80, 0x00))
+		}
+	}
+	return
+}
+
 type rawDec struct {
 	Stream string `json:"stream"`
 	Msg    string `json:"msg"`
@@ -890,8 +955,37 @@ func driveProto(c *hx.Ctx) error {
 	ds := c.NewShard("decode", imports, "dec_case", "corr_dec", "", perShard)
 	rd := c.Rand("decode")
 	perTypeD := c.Pick(12, 300)
+	decOne := func(mt protoreflect.MessageType, hasVT bool, mb []byte, kind string) {
+		pbO := decObs(mt, mb, false)
+		vtO := "ObsErr"
+		if hasVT {
+			vtO = decObs(mt, mb, true)
+		}
+		rd0 := rawDec{Stream: "decode", Msg: string(mt.Descriptor().Name()), Kind: kind, Bytes: hex.EncodeToString(mb), PB: pbO, VT: vtO}
+		if strings.HasPrefix(pbO, "PANIC") || strings.HasPrefix(vtO, "PANIC") {
+			c.ImplFail("decode", "a decoder panicked on "+kind+" input", rd0)
+			return
+		}
+		if hasVT && pbO != vtO {
+			// the two decoders disagree on an input both accept or refuse: recorded, judged by corr_dec
+			c.Count("decode.decoders_disagree", 1)
+		}
+		ds.Add(fmt.Sprintf("(Build_dec_case %s %s %s %s %s)",
+			coqfmt.Str(rd0.Msg), byteList(mb), pbO, coqfmt.Bool(hasVT), vtO), rd0)
+		c.Eval("decode/"+rd0.Msg+"/"+rd0.Bytes, kind != "unchanged")
+		c.Count("decode."+kind, 1)
+		if pbO == "ObsErr" {
+			c.Count("decode.refused", 1)
+		} else {
+			c.Count("decode.accepted", 1)
+		}
+	}
 	for _, mt := range types {
 		_, hasVT := mt.New().Interface().(vtMsg)
+		edges, kinds := decoderEdges(mt.Descriptor(), rd)
+		for i := range edges {
+			decOne(mt, hasVT, edges[i], kinds[i])
+		}
 		for i := 0; i < perTypeD; i++ {
 			m := randMessage(mt, rd, 300)
 			b, err := proto.MarshalOptions{Deterministic: true}.Marshal(m.Interface())
@@ -903,36 +997,14 @@ func driveProto(c *hx.Ctx) error {
 			for try := 0; kind == "unchanged" && try < 12; try++ {
 				mb, kind = mutateWire(mt.Descriptor(), b, rd)
 			}
-			pbO := decObs(mt, mb, false)
-			vtO := "ObsErr"
-			if hasVT {
-				vtO = decObs(mt, mb, true)
-			}
-			rd0 := rawDec{Stream: "decode", Msg: string(mt.Descriptor().Name()), Kind: kind, Bytes: hex.EncodeToString(mb), PB: pbO, VT: vtO}
-			if strings.HasPrefix(pbO, "PANIC") || strings.HasPrefix(vtO, "PANIC") {
-				c.ImplFail("decode", "a decoder panicked on "+kind+" input", rd0)
-				continue
-			}
-			if hasVT && pbO != vtO {
-				// the two decoders disagree on an input both accept or refuse: recorded, judged by corr_dec
-				c.Count("decode.decoders_disagree", 1)
-			}
-			ds.Add(fmt.Sprintf("(Build_dec_case %s %s %s %s %s)",
-				coqfmt.Str(rd0.Msg), byteList(mb), pbO, coqfmt.Bool(hasVT), vtO), rd0)
-			c.Eval("decode/"+rd0.Msg+"/"+rd0.Bytes, kind != "unchanged")
-			c.Count("decode."+kind, 1)
-			if pbO == "ObsErr" {
-				c.Count("decode.refused", 1)
-			} else {
-				c.Count("decode.accepted", 1)
-			}
+			decOne(mt, hasVT, mb, kind)
 		}
 	}
 
 	c.Stats.Rule = fmt.Sprintf("all %d message types of the compiled descriptor (%d with generated MarshalVT/UnmarshalVT/SizeVT, compared against both codecs); "+
 		"single: every field alone over the boundary values of its kind (varint length edges, +-1, min/max of the Go type, strings of 127/128/300 bytes and multi-byte UTF-8), "+
 		"sub-messages absent / present-empty / each sub-field alone / optional wrappers unset, zero and set, repeated and map shapes incl. empty keys and values; "+
-		"random: random field subsets, nesting depth <= 5; decode: canonical bytes rewritten (shuffled, duplicated, split sub-message, truncated, unknown fields, padded varints, overlong length). "+
+		"random: random field subsets, nesting depth <= 5; decode: per field hand-made non-canonical inputs (explicit defaults, over-wide integers, repeated occurrences, merged sub-messages, partial / reordered / duplicate map entries) and canonical bytes rewritten (shuffled, duplicated, split sub-message, truncated, unknown fields, padded varints, overlong length). "+
 		"A case is non-trivial when it encodes to at least one byte (decode stream: when the bytes were rewritten).", len(types), withVT)
 	return nil
 }
